@@ -277,7 +277,7 @@ def _e1_shards(tier):
         base = {"threads": 2, "ops_per_thread": 1, "P": 2}
         return [dict(base, prefix=p) for p in enumerate_prefixes(body_E1, "X", {}, base, 2)] + [dict(scripted, prefix=p) for p in enumerate_prefixes(body_E1, "X", {}, scripted, 2)]
     out = [dict(dict(scripted, P=3), prefix=p) for p in enumerate_prefixes(body_E1, "X", {}, dict(scripted, P=3), 3)]
-    base = {"threads": 2, "ops_per_thread": 1, "P": 4}
+    base = {"threads": 2, "ops_per_thread": 1, "P": 3}
     out += [dict(base, prefix=p) for p in enumerate_prefixes(body_E1, "X", {}, base, 2)]
     base = {"threads": 3, "ops_per_thread": 1, "P": 2, "menu": ["write-typed", "write-traceback", "validate", "flush", "reset"]}
     out += [dict(base, prefix=p) for p in enumerate_prefixes(body_E1, "X", {}, base, 3)]
@@ -303,7 +303,7 @@ OBLIGATIONS = [
         shards=_e1_shards,
         twin=[{"threads": 2, "ops_per_thread": 1, "P": 2, "twin_label": "interleaved"}],
         timeout={"quick": 100, "thorough": 1500},
-        bounds={"quick": "2 threads x 1 operation each from 8 kinds (64 assignments), and validate|serialize|flush racing a reset-then-write script on a logger that already holds a message; every schedule with <= 2 preemptions at line granularity in eliot/_output.py", "thorough": "2 threads x 1 op with <= 4 preemptions; 3 threads x 1 op from 5 kinds and 2 threads x 2 ops from 3 kinds with <= 2 preemptions; the scripted race with <= 3"},
+        bounds={"quick": "2 threads x 1 operation each from 8 kinds (64 assignments), and validate|serialize|flush racing a reset-then-write script on a logger that already holds a message; every schedule with <= 2 preemptions at line granularity in eliot/_output.py", "thorough": "2 threads x 1 op with <= 3 preemptions; 3 threads x 1 op from 5 kinds and 2 threads x 2 ops from 3 kinds with <= 2 preemptions; the scripted race with <= 3"},
     ),
     Ob(
         "E2",
